@@ -69,6 +69,8 @@ inductive Obs where
   /-- `accept` returned the connection error (H3_ID_ERROR). -/
   | acceptErr
   | shutdownOk
+  /-- `shutdown` returned the connection error recorded before (H3_ID_ERROR): nothing was written. -/
+  | shutdownErr
   /-- client driver returned the connection error H3_ID_ERROR. -/
   | idError
   | drvPending
@@ -193,6 +195,9 @@ def step (s : State) : Ev → State × List Obs
   | .arrive id => ({ s with incoming := s.incoming ++ [id] }, [])
   | .accept => accept s
   | .shutdown n =>
+    -- `ConnectionInner::shutdown` starts with `check_connection_error()?`: a failed connection
+    -- reports its error, writes nothing and leaves `sent_closing` alone
+    if s.failed then (s, [.shutdownErr]) else
     let r := shutdown s n
     (r.1, r.2 ++ [.shutdownOk])
   | .complete id => ({ s with ongoing := s.ongoing.filter (· != id) }, [])
